@@ -74,7 +74,8 @@ def _observe(source, target, tb, fb, items):
             c.ood("match:zero_buffer_with_0_or_1d_geometry:affinity_undefined")
             return
         c.mon("match.zero_buffer_streams")
-    if not all(geoms.is_shapely_valid(g) for g in list(source) + list(target)):
+    # (closed-form types are valid as validated; a flat interval / box is a legitimate geometry of zero extent)
+    if not all(geoms.to_spec(g)["type"] in ("TimeStamp", "TimeInterval", "BoundingBox") or geoms.is_shapely_valid(g) for g in list(source) + list(target)):
         c.ood("match:invalid_geometry")
         return
     c.mon("match_geometries.stream")
@@ -274,6 +275,17 @@ def run(ctx):
                 if arr == "duplicates" and ss and ts:
                     ts = [ss[0]] * len(ts) if rng.random() < 0.5 else ts
                 mix = mix + ":" + where
+                if (ss or ts) and rng.random() < 0.2:
+                    # one member drawn without duration or bandwidth (click-and-release): still mentioned exactly once,
+                    # paired only if its affinity with the partner is positive
+                    lst = rng.choice([l for l in (ss, ts) if l])
+                    j = rng.randrange(len(lst))
+                    bb = geoms.ref_bounds(lst[j])
+                    tm = rng.choice([bb[0], (bb[0] + bb[2]) / 2])
+                    lst[j] = rng.choice([{"type": "TimeInterval", "coordinates": [tm, tm]},
+                                         {"type": "BoundingBox", "coordinates": [tm, 1000.0, tm, 2000.0]},
+                                         {"type": "BoundingBox", "coordinates": [bb[0], 1500.0, max(bb[2], bb[0]), 1500.0]}])
+                    mix += ":with_zero_extent"
                 ctx.case((n, m, arr, mix), {"source": ss, "target": ts, "tb": tb, "fb": fb}, nontrivial=bool(n and m))
                 judge(ctx, ss, ts, tb, fb)
     # a few larger inputs (coverage / pairing rules judged, optimality not)
